@@ -54,11 +54,15 @@ class Run:
             st.cells[self.self_cell] = tag_seqs(sv, "self")
             st.cells["ghost:self0"] = st.cells[self.self_cell]
             it.snapshots["ghost:self0"] = self.self_cell
-        if setup:
-            setup(self, st)
         self.error = None
         try:
-            self.results = [(s, r) for s, r in it.run_body(fr, st) if s.sys.feasible()]
+            # a setup callback may fork: it returns the list of states to start from (None: the one it was given)
+            starts = setup(self, st) if setup else None
+            if starts is None:
+                starts = [st]
+            self.results = []
+            for st0 in starts:
+                self.results += [(s, r) for s, r in it.run_body(fr, st0) if s.sys.feasible()]
         except FailClosed as e:
             self.error = str(e)
             self.results = []
